@@ -397,7 +397,7 @@ func c08GenerationalOrder(k *eng.Check) {
 	}
 	mGc := eng.Static("(*store/types.ValueStore).gc")
 	var f *ssa.Function
-	for _, g := range eng.WithAnons(top) {
+	for _, g := range c08GCBodyCandidates(top) {
 		if len(eng.Calls(g, mGc, false)) == 2 {
 			f = g
 		}
